@@ -212,6 +212,8 @@ def run(ctx):
             why = {'stdout differs': {'python': b['py']['out'][-600:], 'kernprof': b['kp']['out'][-800:]}}
         elif b['bad_lines']:
             why = {'reported line numbers do not point at the definitions': b['bad_lines']}
+        elif b['kp']['err'].strip() and not b['py']['err'].strip():
+            why = {'kernprof writes to standard error where python does not': b['kp']['err'][-400:]}
         if why:
             ctx.fail('the auto-profiled program does not behave like the original', {'finding_class': None, 'script': c['script'], 'prof_mod': c['prof_mod'],
                                                                                     'prof_imports': c['prof_imports'], 'module': c['prog']['module'],
